@@ -157,6 +157,17 @@ def intOfStr : List Char → M Int
   | '+' :: cs => match digitsToNat cs with | some n => pure (Int.ofNat n) | none => throw "ValueError"
   | cs => match digitsToNat cs with | some n => pure (Int.ofNat n) | none => throw "ValueError"
 
+/-- `int(s, 2)` for a string of binary digits -/
+def intOfBin (s : List Char) : M Int :=
+  if s.isEmpty then throw "ValueError" else
+  s.foldlM (fun acc c => if c == '0' then pure (2 * acc) else if c == '1' then pure (2 * acc + 1) else throw "ValueError") 0
+
+/-- `sep.join(parts)` -/
+def joinStr (sep : List Char) : List (List Char) → List Char
+  | [] => []
+  | [a] => a
+  | a :: rest => a ++ sep ++ joinStr sep rest
+
 /-- `hex(n)[2:]`: the lowercase hexadecimal digits of `n ≥ 0` (for negative `n` python's `'-0x..'[2:]` is `'x..'`) -/
 def hexDigitsNat (n : Nat) : List Char := (Nat.toDigits 16 n)
 def hexStr (n : Int) : List Char := if 0 ≤ n then hexDigitsNat n.toNat else 'x' :: hexDigitsNat (-n).toNat
